@@ -40,11 +40,12 @@ type v5Scn struct {
 	phase     float64
 	client    string // silent late trickle flood
 	gap       time.Duration
-	kind      string // undecided match-read empty-fb-read
+	kind      string // undecided match-read empty-fb-read nonterm-undecided
+	delay     time.Duration // nonterm-undecided: how long the non-terminal handler of the first route takes
 }
 
 func (s v5Scn) String() string {
-	return fmt.Sprintf("%s/%s/%s timeout=%v phase=%.2f gap=%v", s.transport, s.kind, s.client, s.timeout, s.phase, s.gap)
+	return fmt.Sprintf("%s/%s/%s timeout=%v phase=%.2f gap=%v delay=%v", s.transport, s.kind, s.client, s.timeout, s.phase, s.gap, s.delay)
 }
 
 type v5Send struct {
@@ -185,6 +186,25 @@ func v5RunScenario(scn v5Scn) (res v5Res) {
 			return nil
 		})))
 		routes = RouteList{rt}
+	case "nonterm-undecided":
+		// a route without matchers whose handler takes a little time and passes the connection on,
+		// then a route that never decides: matching goes on with the deadline armed again
+		first := &Route{}
+		first.middleware = append(first.middleware, wrapHandler(NextHandlerFunc(func(cx *Connection, nx Handler) error {
+			time.Sleep(scn.delay)
+			return nx.Handle(cx)
+		})))
+		rt := &Route{matcherSets: MatcherSets{MatcherSet{v5Need{k: 1 << 20}}}}
+		rt.middleware = append(rt.middleware, wrapHandler(NextHandlerFunc(func(cx *Connection, _ Handler) error {
+			mu.Lock()
+			res.class = "ran"
+			if core.why != "" {
+				res.after = true
+			}
+			mu.Unlock()
+			return nil
+		})))
+		routes = RouteList{first, rt}
 	case "match-read":
 		rt := &Route{matcherSets: MatcherSets{MatcherSet{v5Need{k: 1}}}}
 		rt.middleware = append(rt.middleware, wrapHandler(NextHandlerFunc(func(cx *Connection, _ Handler) error {
@@ -425,7 +445,7 @@ func v5Oracle(r v5Res) map[string]string {
 		return f
 	}
 	switch r.scn.kind {
-	case "undecided":
+	case "undecided", "nonterm-undecided":
 		switch {
 		case r.scn.client == "flood":
 			if r.class != "full" {
@@ -497,7 +517,7 @@ func (r v5Res) coq() string {
 	for _, s := range r.sends {
 		as = append(as, fmt.Sprintf("(%d, %d)", s.at, s.n))
 	}
-	kind := map[string]string{"undecided": "KUndecided", "match-read": "KMatchRead", "empty-fb-read": "KEmptyFbRead"}[r.scn.kind]
+	kind := map[string]string{"undecided": "KUndecided", "match-read": "KMatchRead", "empty-fb-read": "KEmptyFbRead", "nonterm-undecided": "KNonTermUndecided"}[r.scn.kind]
 	tr := map[string]string{"pipe": "TPipe", "tcp": "TTcp", "udp": "TUdp", "udp-real": "TUdp"}[r.scn.transport]
 	cls := map[string]string{"timeout": "OTimeout", "full": "OFull", "neterr": "ONetErr", "ran": "ORan", "fallback": "OFallback", "none": "ONone"}[r.class]
 	hr := map[string]string{"none": "RdNone", "ok": "RdOk", "fail": "RdFail"}[r.hread]
@@ -531,6 +551,15 @@ func TestVerifC05Timing(t *testing.T) {
 				}
 			}
 			add(v5Scn{transport: tr, timeout: to, phase: .5, client: "late", kind: "match-read"})
+			if to >= 300*time.Millisecond {
+				// after a non-terminal match (deadline cleared, handler takes 0/20/60 ms) a later route is undecided
+				for _, dly := range []time.Duration{0, 20 * time.Millisecond, 60 * time.Millisecond} {
+					add(v5Scn{transport: tr, timeout: to, phase: .5, client: "silent", kind: "nonterm-undecided", delay: dly})
+					if dly == 20*time.Millisecond {
+						add(v5Scn{transport: tr, timeout: to, phase: .95, client: "late", kind: "nonterm-undecided", delay: dly})
+					}
+				}
+			}
 			add(v5Scn{transport: tr, timeout: to, phase: .5, client: "late", kind: "empty-fb-read"})
 			if vThorough() {
 				add(v5Scn{transport: tr, timeout: to, phase: .95, client: "late", kind: "match-read"})
